@@ -264,6 +264,8 @@ pub enum KeyForm {
     Twice,
     /// `$` inside nested groups
     Nested,
+    /// the key value is wrapped in `dxrt::Ik(..)`, whose inherent `cmp` / `partial_cmp` / `eq` / `hash` give wrong answers
+    Inherent,
 }
 
 pub fn key_expr(attr: Tr, style: KeyStyle, form: KeyForm) -> String {
@@ -276,6 +278,7 @@ pub fn key_expr(attr: Tr, style: KeyStyle, form: KeyForm) -> String {
         KeyForm::Method => format!("$.{m}()"),
         KeyForm::Twice => format!("($.{m}(), $.{m}())"),
         KeyForm::Nested => format!("[({{ $.{m}() }}, 0u8)]"),
+        KeyForm::Inherent => format!("dxrt::Ik($.{m}())"),
     }
 }
 pub fn by_expr(attr: Tr, style: KeyStyle) -> String {
